@@ -68,6 +68,8 @@ def queries(ctx):
     return qs
 def mutants(ctx):
     return [
+      Mutant("terminated_published_before_callback", T, "    if(NULL != tp->tdm.callback) {", "    parsec_atomic_cas_ptr(&tp->tdm.monitor, PARSEC_TERMDET_LOCAL_TERMINATING, PARSEC_TERMDET_LOCAL_TERMINATED);\n    if(NULL != tp->tdm.callback) {", queries=["ctxwait_p2_t2"]),
+      Mutant("state_shows_terminating_as_terminated", T, "    if( PARSEC_TERMDET_LOCAL_TERMINATED == monitor )\n        return PARSEC_TERM_TP_TERMINATED;", "    if( PARSEC_TERMDET_LOCAL_TERMINATED == monitor || PARSEC_TERMDET_LOCAL_TERMINATING == monitor )\n        return PARSEC_TERM_TP_TERMINATED;", queries=["tpwait_p2_t2", "ctxwait_p2_t2"]),
       Mutant("start_without_token", U, "        (void)parsec_atomic_fetch_inc_int32( &context->active_taskpools );\n        return 0;", "        return 0;", queries=["ctxwait_p2_t2"]),
       Mutant("completion_callback_twice", U, "        (void)tp->on_complete( tp, tp->on_complete_data );\n    }", "        (void)tp->on_complete( tp, tp->on_complete_data );\n        (void)tp->on_complete( tp, tp->on_complete_data );\n    }", queries=["ctxwait_p2_t2"]),
       Mutant("add_taskpool_not_counted", U, "    /* Update the number of pending taskpools */\n    (void)parsec_atomic_fetch_inc_int32( &context->active_taskpools );", "    /* Update the number of pending taskpools */", queries=["ctxwait_p2_t2"]),
